@@ -658,6 +658,17 @@ func (g *G) expr(want *m.Type, fuel int) *m.Expr {
 			}
 			return m.Infix(op, g.expr(ot, fuel-1), g.expr(ot, fuel-1))
 		})
+		add(1, func() *m.Expr {
+			// a non-associative operator as direct operand of itself: legal only inside parentheses
+			g.stat("nonassoc-nested-in-itself")
+			op := pick(g.T, "eqop", []string{"==", "!="})
+			ot := pick(g.T, "eqoperand", []*m.Type{m.Num, m.Str, m.Bool})
+			inner := m.Infix(op, g.expr(ot, fuel-1), g.expr(ot, fuel-1))
+			if g.chance("innerleft", 1, 2) {
+				return m.Infix(op, inner, g.expr(m.Bool, fuel-1))
+			}
+			return m.Infix(op, g.expr(m.Bool, fuel-1), inner)
+		})
 		add(3, func() *m.Expr {
 			g.stat("logic")
 			return m.Infix(pick(g.T, "logic", []string{"&&", "||"}), g.expr(m.Bool, fuel-1), g.expr(m.Bool, fuel-1))
